@@ -430,6 +430,8 @@ func (e *Expr) String() string {
 		return "old(" + e.Args[0].String() + ")"
 	case "cond":
 		return "(" + e.Args[0].String() + " ? " + e.Args[1].String() + " : " + e.Args[2].String() + ")"
+	case "count":
+		return "count(" + e.Binders[0].Name + " " + e.Binders[0].Type + " in " + e.Args[0].String() + " :: " + e.Args[1].String() + ")"
 	case "forall", "exists":
 		var bs []string
 		for _, b := range e.Binders {
@@ -736,6 +738,33 @@ func (p *parser) primary() (*Expr, error) {
 			return &Expr{Kind: "bool", Name: t.text}, nil
 		case "nil":
 			return &Expr{Kind: "nil", Name: "nil"}, nil
+		}
+		if t.text == "count" && p.isOp("(") && p.toks[p.pos+1].kind == "id" && p.toks[p.pos+2].kind == "id" {
+			// count(k T in S :: body)
+			p.next()
+			name := p.next().text
+			ty, err := p.typeName()
+			if err != nil {
+				return nil, err
+			}
+			if in := p.next(); in.kind != "id" || in.text != "in" {
+				return nil, fmt.Errorf("count(k T in S :: body): 'in' expected")
+			}
+			set, err := p.expr(0)
+			if err != nil {
+				return nil, err
+			}
+			if err := p.expect("::"); err != nil {
+				return nil, err
+			}
+			body, err := p.expr(0)
+			if err != nil {
+				return nil, err
+			}
+			if err := p.expect(")"); err != nil {
+				return nil, err
+			}
+			return &Expr{Kind: "count", Binders: []Binder{{name, ty}}, Args: []*Expr{set, body}}, nil
 		}
 		if p.isOp("(") {
 			p.next()
